@@ -102,6 +102,50 @@ def run(ctx):
                                   {'op': 'sign', 'input': i, 'kind': m['kind'], 'have': len(sigs), 'need': m['m']})
                 sigchecks.append((raw, i, m, [s.as_der_encoded()[:-1] if s.as_der_encoded()[-1:] == bytes([s.hash_type]) else s.as_der_encoded() for s in sigs],
                                   [k.public_byte for k in m['keys']]))
+    # ---- key-less inputs: the output being spent is named by its address or its scriptPubKey only, and ALL keys are handed to one sign()
+    # call in any order (with a stranger among them): the digest of input i commits to the script code of the key of THAT output
+    from bitcoinlib.transactions import Transaction as _Tx
+    from bitcoinlib.keys import Key as _Key
+    for trial in range(40 if T else 12):
+        nin_ = rng.randint(2, 3)
+        ks_ = [_Key(rng.randrange(2 ** 200, 2 ** 250)) for _ in range(nin_)]
+        t = _Tx(network='bitcoin', witness_type='segwit', version=2, locktime=0)
+        ins_, meta_ = [], []
+        for k_ in ks_:
+            kind_ = rng.choice(['p2pkh', 'p2wpkh', 'p2sh_p2wpkh'])
+            wt_ = {'p2pkh': 'legacy', 'p2wpkh': 'segwit', 'p2sh_p2wpkh': 'p2sh-segwit'}[kind_]
+            h_ = txgen._h160(k_.public_byte)
+            spk_ = {'p2pkh': b'\x76\xa9\x14' + h_ + b'\x88\xac', 'p2wpkh': b'\x00\x14' + h_,
+                    'p2sh_p2wpkh': b'\xa9\x14' + txgen._h160(b'\x00\x14' + h_) + b'\x87'}[kind_]
+            txid_, n_, val_, seq_ = txgen.rbytes(rng, 32), rng.randrange(4), rng.choice([5000, 123456, 2 ** 32 + 7]), rng.choice([0xffffffff, 0xfffffffd])
+            # (a P2SH scriptPubKey alone does not say what is nested in it: the nested kind is named by its address form only)
+            form_ = rng.choice(['address', 'locking_script']) if kind_ != 'p2sh_p2wpkh' else 'address'
+            ctx.count('key-less-input:' + form_)
+            if form_ == 'address':
+                t.add_input(txid_, n_, address=k_.address(encoding='bech32' if kind_ == 'p2wpkh' else 'base58', script_type=kind_), value=val_, witness_type=wt_, sequence=seq_)
+            else:
+                t.add_input(txid_, n_, locking_script=spk_, value=val_, witness_type=wt_, sequence=seq_)
+            ins_.append((txid_[::-1], n_, b'', seq_))
+            meta_.append((b'\x76\xa9\x14' + h_ + b'\x88\xac', val_, 'legacy' if kind_ == 'p2pkh' else 'segwit'))
+        osp_ = b'\x00\x14' + txgen.rbytes(rng, 20)
+        t.add_output(1000, lock_script=osp_)
+        rawk = txgen.ser_tx({'version': 2, 'ins': ins_, 'outs': [(1000, osp_)], 'wit': None, 'locktime': 0})
+        kl_ = list(ks_) + ([_Key(rng.randrange(2 ** 200, 2 ** 250))] if rng.random() < 0.5 else [])
+        rng.shuffle(kl_)
+        try:
+            t.sign(kl_, fail_on_unknown_key=False)
+        except Exception as e:
+            ctx.violation('signing key-less inputs with the list of their keys raised', {'op': 'sign-key-less', 'error': repr(e)[:160]})
+            continue
+        for i, (sc_, val_, wtm_) in enumerate(meta_):
+            try:
+                h = t.signature_hash(i, 1, t.inputs[i].witness_type).hex()
+            except Exception as e:
+                h = 'raise:' + type(e).__name__
+            cases.append(('sighash %s %d %s %d %d %s' % (rawk.hex(), i, hexp(sc_), val_, 1, wtm_), h, True))
+            if len(t.inputs[i].signatures) != 1 or txgen._h160(t.inputs[i].keys[0].public_byte) != txgen._h160(ks_[i].public_byte):
+                ctx.violation('a key-less input signed with the list of all keys does not carry the signature of the key of its output',
+                              {'op': 'sign-key-less', 'input': i, 'signatures': len(t.inputs[i].signatures)})
     # ---- lengths at the CompactSize thresholds inside the preimage: an output script of 252 / 253 / 65535 / 65536 bytes
     for ln in (252, 253, 65535, 65536):
         t, d = txgen.build_api_tx(rng, nin=2, nout=1, max_n=2)
